@@ -43,7 +43,7 @@ class C20(fw.Prop):
             "suite 0..15 x flag combinations, all sequence numbers 0..9, all 2^16 format words (decode) and lengths "
             "0..2200 x segmentation (encode); sampled: 2^24 conformance words on decode (single-bit, all-but-one, random), "
             "2^32 long-invoke words (boundaries + random), OBIS every byte value per position in byte and dotted form; "
-            "expected value = Spec.Fields via the driver; clock status written inside date-times of every kind (naive, fixed, summer / winter zone); the long invoke-id word inside a data-notification; sequence numbers 8..1000 and negatives refused by the frame classes; non-trivial = distinct protocol line")
+            "expected value = Spec.Fields via the driver; clock status written inside date-times of every kind (naive, fixed, summer / winter zone); the long invoke-id word inside a data-notification; sequence numbers 8..1000 and negatives refused by the frame classes; every _to case is preceded by a failed parse in the same process; invoke-id byte and OBIS code inside a GET request after partly-read and truncated requests; non-trivial = distinct protocol line")
     trusted_base = ["extract.py evaluates each one-byte function on its whole domain and prints the graph",
                     "Spec.Fields is my reading of the Green Book / Blue Book / IEC 62056-46 bit layouts"]
     assumptions = ["dotted OBIS form: round trip validated exhaustively per position, not proved (String.splitOn reasoning)"]
